@@ -55,6 +55,10 @@ func (s FieldQueryString) Build() (*FieldQuery, error) {
 }
 
 func (s FieldQueryString) build(v reflect.Value) (*FieldQuery, error) {
+	if !v.IsValid() {
+		// null: an empty field list ( BuildFieldQuery() without fields marshals a nil slice )
+		return &FieldQuery{}, nil
+	}
 	switch v.Type().Kind() {
 	case reflect.String:
 		return s.buildString(v)
